@@ -257,6 +257,82 @@ theorem find_cache_raise_irrelevant {m : List (Path × Cols)} {tr : List (List N
     {v : Cols} (h : findU m tr t r = .found v) (r' : Bool) : findU m tr t r' = .found v :=
   findU_found_raise h r'
 
+/-! ### `find`'s outcomes and the cache policy "store hits only" -/
+
+/-- **the three outcomes of `find`** on every reachable state: the table's columns, `None`, or (only with
+    `raise_on_missing=True`) the "Ambiguous mapping" SchemaError — never a leaked ValueError from `nested_get` -/
+theorem find_three_outcomes (E : Env) (S : St) (hS : Inv E S) (t : List Ident) (r e : Bool) :
+    (∃ c, (find E S t r e).2 = .found c) ∨ (find E S t r e).2 = .notFound ∨
+    (r = true ∧ (find E S t r e).2 = .err .ambiguous) := by
+  rw [find_snd E S hS]
+  have hni := findUncached_no_internal hS t r
+  cases r with
+  | false =>
+    have hne := findU_noraise S.mapping S.trie t
+    cases h : findUncached S t false with
+    | found c => exact Or.inl ⟨_, rfl⟩
+    | notFound => exact Or.inr (Or.inl rfl)
+    | err x => exact absurd h (hne x)
+  | true =>
+    cases h : findUncached S t true with
+    | found c => exact Or.inl ⟨_, rfl⟩
+    | notFound => exact Or.inr (Or.inl rfl)
+    | err x =>
+      rcases findU_err_kinds _ _ _ _ _ h with hx | hx
+      · subst hx; exact Or.inr (Or.inr ⟨rfl, rfl⟩)
+      · subst hx; exact absurd h hni
+
+/-- **how the answer depends on `raise_on_missing`** (through the cache, on every reachable state): a found table is
+    found either way; the flag only turns the ambiguous `None` into the error -/
+theorem find_raise_dependence (E : Env) (S : St) (hS : Inv E S) (t : List Ident) (e : Bool) :
+    (∀ c, (find E S t true e).2 = .found c ↔ (find E S t false e).2 = .found c) ∧
+    ((find E S t true e).2 = .err .ambiguous → (find E S t false e).2 = .notFound) ∧
+    ((find E S t true e).2 = .notFound → (find E S t false e).2 = .notFound) := by
+  rw [find_snd E S hS, find_snd E S hS]
+  obtain ⟨h1, h2, h3, _⟩ := findU_raise_cases S.mapping S.trie t
+  unfold findUncached
+  refine ⟨?_, ?_, ?_⟩
+  · intro c
+    cases ha : findU S.mapping S.trie t true <;> cases hb : findU S.mapping S.trie t false <;>
+      simp only [convR, reduceCtorEq, FindR.found.injEq] <;>
+      first
+        | (have := (h1 _).mp ha; rw [hb] at this; simp at this; subst this; rfl)
+        | (have := (h1 _).mpr hb; rw [ha] at this; simp at this)
+        | (have := (h1 _).mp ha; rw [hb] at this; simp at this)
+        | rfl
+  · intro h
+    cases ha : findU S.mapping S.trie t true with
+    | found c => rw [ha] at h; simp [convR] at h
+    | notFound => rw [ha] at h; simp [convR] at h
+    | err x =>
+      rw [ha] at h; simp only [convR, FindR.err.injEq] at h; subst h
+      rw [h2 ha]; rfl
+  · intro h
+    cases ha : findU S.mapping S.trie t true with
+    | found c => rw [ha] at h; simp [convR] at h
+    | err x => rw [ha] at h; simp [convR] at h
+    | notFound => rw [h3 ha]; rfl
+
+/-- **why the policy must be "store hits only"**: with "store misses" (the C15 round-6 regression) the `None` computed
+    for the ambiguous `t` under `raise_on_missing=False` is replayed to a later `raise_on_missing=True` call, which
+    must raise "Ambiguous mapping" -/
+theorem store_misses_hides_ambiguity_witness :
+    let S : St := fresh ⟨[(["db", "t"], [("a", "INT")]), (["db2", "t"], [("b", "INT")])], [], []⟩
+    let t : List Ident := [⟨"t", false⟩]
+    (findStoreMisses envA (findStoreMisses envA S [] t false false).1.1 (findStoreMisses envA S [] t false false).1.2
+        t true false).2 = .notFound ∧
+    (find envA (find envA S t false false).1 t true false).2 = .err .ambiguous := by decide +kernel
+
+/-- the source's `find` recomputes when the cached value is `None` (ast fact: the guard is `if schema is None`) -/
+theorem generated_find_cache_policy_ok : findServesCachedNone = false := by decide
+
+/-- **every reader of a schema is an operation of this model**: the call-site table (which `Schema` members the
+    optimizer / lineage / executor modules touch, re-extracted by ast on every run) only lists `column_names`,
+    `get_column_type`, `has_column`, `find`, `empty`, `dialect`, `supported_table_args` (+ `add_table`, `copy`) — so
+    "every lookup reflects the current registrations" covers every reader.  Finite check, decided completely. -/
+theorem generated_schema_readers_are_model_operations :
+    schemaCallSites.all (fun ms => ms.2.all (fun m => m.modelled)) = true := by decide +kernel
+
 /-- which per-call overrides the computation behind each cache reads / which are part of its key, from the
     layouts extracted on this run (`find` takes an already normalised table: it has no per-call option) -/
 def optRead : CacheId → CallOpt → Bool
@@ -459,6 +535,24 @@ theorem stale_depth_witness :
     (coreStep envA L0 core2 (.addTable [⟨"d", false⟩, ⟨"u", false⟩] [("b", "INT")])).2 = .unit := by
   decide +kernel
 
+/-- **`add_table(match_depth=False)`, partial.**  Specified (inside the refinement): every call whose table has exactly
+    the schema's depth, and every call on an empty schema — they answer and continue like `match_depth=True`.
+    NOT specified: a call with another number of parts; it leaves the uniform-depth states the refinement is about
+    (`match_depth_false_nonuniform_witness`), and from then on no answer of that schema is covered. -/
+theorem match_depth_false_partial {L : Layouts} {E : Env} (hk : TypeKeyOK L E) {C : Core} {d : Nat} (h : CShape C d)
+    (hT : TInv L E C) (nt : List Ident) (ncols : Cols) (hnt : nt ≠ []) (hd : d = 0 ∨ nt.length = d) :
+    (coreAddNoCheck E L C nt ncols).2 = (stepN E L.evict (absC C d) (.addTable nt ncols)).2 ∧
+    ∃ d', CShape (coreAddNoCheck E L C nt ncols).1 d' ∧ TInv L E (coreAddNoCheck E L C nt ncols).1 ∧
+      Equiv (absC (coreAddNoCheck E L C nt ncols).1 d') (stepN E L.evict (absC C d) (.addTable nt ncols)).1 :=
+  coreAddNoCheck_spec hk h hT nt ncols hnt hd
+
+/-- why the rest is not specified: on `{d: {t: …}}` (depth 2, `_depth` cached), `add_table("d", {z: INT},
+    match_depth=False)` replaces the namespace `d` by a column dict; the cached `_depth` keeps saying 2 while a
+    schema rebuilt from the mapping computes 1 -/
+theorem match_depth_false_nonuniform_witness :
+    let C' := (coreAddNoCheck envA L0 core2 [⟨"d", false⟩] [("z", "INT")]).1
+    (cDepth C').2 = 2 ∧ dictDepth C'.mapping - 1 = 1 := by decide +kernel
+
 /-- one public method on the full core (nested structures + caches) = the same method on the flat view -/
 theorem core_step_refines {L : Layouts} {E : Env} (hk : TypeKeyOK L E) {C : Core} {d : Nat} (h : CShape C d)
     (hT : TInv L E C) (op : NOp) (hop : NAdm op) :
@@ -631,6 +725,54 @@ theorem raw_constructor_answers_eq_incremental (E : Env) (hf : E.f.Ok) (hty : Ty
   simp only [fRun, List.foldl_nil, List.map_nil, run] at h
   rw [h]
   exact constructor_answers_eq_incremental E n _ hok q.toOp
+
+/-! ### several schemas: `copy()`, `from_mapping_schema`, `empty` -/
+
+/-- **frame**: a call on schema `i` leaves every other live schema exactly as it was -/
+theorem copy_frame (E : Env) (L : Layouts) (W : World) (i j : Nat) (op : FOp) (h : i ≠ j) :
+    (wStep E L W i op).1[j]? = W[j]? := by
+  unfold wStep
+  cases hW : W[i]? with
+  | none => rfl
+  | some F => simp [List.getElem?_set_ne h]
+
+/-- **a copy is independent**: after `c = s.copy()` any history of calls on `c` leaves `s` — its state, hence every
+    answer it gives — unchanged (the real `copy()` shares inner dicts when `normalize=False`: known finding
+    C18-copy-shares-mapping, repair proposed) -/
+theorem copy_independent (E : Env) (L : Layouts) (W : World) (i : Nat) (norm : Bool) (ops : List FOp) (hi : i < W.length) :
+    (ops.foldl (fun w op => (wStep E L w W.length op).1) (wCopy E L W i norm).1)[i]? = W[i]? := by
+  have key : ∀ (ops : List FOp) (w : World), w[i]? = W[i]? →
+      (ops.foldl (fun w op => (wStep E L w W.length op).1) w)[i]? = W[i]? := by
+    intro ops
+    induction ops with
+    | nil => intro w hw; exact hw
+    | cons op ops ih =>
+      intro w hw
+      simp only [List.foldl_cons]
+      exact ih _ (by rw [copy_frame E L w W.length i op (by omega), hw])
+  apply key
+  unfold wCopy
+  cases hW : W[i]? with
+  | none => simp only; exact hW
+  | some F =>
+    simp only
+    cases fCopy E L F norm with
+    | error e => exact hW
+    | ok F' => simp only; rw [List.getElem?_append_left hi]; exact hW
+
+/-- the copy itself is a constructed schema: with `normalize` on it is `MappingSchema(mapping, normalize=True)`
+    (`constructor_refines_flat` applies), with `normalize` off it is `coreOfMapping mapping` (`constructor_state_ok`) -/
+theorem copy_is_constructor (E : Env) (L : Layouts) (F : FSt) (norm : Bool) :
+    fCopy E L F norm = fInit E L F.core.mapping norm := rfl
+
+/-- `Schema.empty` is "nothing registered": it agrees with the flat view on admissible states -/
+theorem empty_refines (F : FSt) (d : Nat) (h : CShape F.core d) : fEmpty F = true ↔ (absC F.core d).mapping = [] := by
+  unfold fEmpty
+  cases h with
+  | empty h1 _ _ _ => simp [h1, Tree.isEmptyDict, absC, flatView]
+  | full d0 hu _ _ _ =>
+    have := (depth_absC_full (C := F.core) hu).2
+    simp [uniform_not_empty hu, this]
 
 end Ctor
 
